@@ -88,16 +88,22 @@ TECHNIQUE = ("Coq proof (non-interference: invariant 'inside a wrapper the ambie
 
 # ------------------------------------------------------------------------------------------ programs
 TEXT, LEAF, DYN, EL, SEQ, PROVIDE, SUSPEND, SUSPENSE, RESOURCE, CLEANUP, ALLOC, ITEM, DYNL, BGREAD = range(14)
+# added by the anchor coverage audit (coverage/C20.md)
+CTXLEAF, ROUTER, RES2, OWNERAPI, SCLEAF, FOR, TRANSITION, UNSUSPEND, SFN = range(14, 23)
 
 
 class Gen:
     """random view program. flat = awaits are not nested (children of async nodes are synchronous views)"""
 
-    def __init__(self, rng, maxdepth, ngates, flat, bg=False):
-        self.rng, self.maxdepth, self.ng, self.flat, self.bg = rng, maxdepth, ngates, flat, bg
+    def __init__(self, rng, maxdepth, ngates, flat, bg=False, ext=0):
+        """ext: 0 = the original grammar, 1 = plus the constructs the Coq model covers (context-API
+        leaves, For, Transition, Unsuspend, Owner::new), 2 = plus the oracle-only ones (router,
+        resource variants and read paths, Owner API, SsrSharedContext API, scoped background tasks)"""
+        self.rng, self.maxdepth, self.ng, self.flat, self.bg, self.ext = rng, maxdepth, ngates, flat, bg, ext
         self.p = 0
         self.cid = 0
         self.nslot = 0
+        self.routed = False
 
     def probe(self):
         self.p += 1
@@ -105,6 +111,14 @@ class Gen:
 
     def leaf(self, sync, slots, top=False):
         r = self.rng.random()
+        if self.ext and r < 0.2:
+            k = self.rng.random()
+            if k < 0.55:
+                return [CTXLEAF, self.probe(), self.rng.randrange(1, 4 if self.ext < 2 else 6)]
+            if k < 0.75 and not sync and not top:
+                return [UNSUSPEND, self.probe()]
+            if self.ext >= 2:
+                return [SCLEAF, self.probe(), self.rng.randrange(5)]
         if r < 0.35:
             return [LEAF, self.probe()]
         if r < 0.65 and not sync:
@@ -112,7 +126,8 @@ class Gen:
             return [DYN if top else DYNL, self.probe()]
         if r < 0.9 and slots:
             if self.bg and not sync and self.rng.random() < 0.6:
-                return [BGREAD, self.rng.randrange(self.ng), self.probe(), self.rng.choice(slots)]
+                b = [BGREAD, self.rng.randrange(self.ng), self.probe(), self.rng.choice(slots)]
+                return b + [self.rng.randrange(3)] if self.ext >= 2 and self.rng.random() < 0.5 else b
             return [ITEM, self.probe(), self.rng.choice(slots)]
         return [TEXT]
 
@@ -121,6 +136,10 @@ class Gen:
         rng = self.rng
         if d >= self.maxdepth:
             return self.leaf(sync, slots, top)
+        if self.ext and not sync and rng.random() < 0.22:
+            e = self.ext_view(d, slots, top, insus)
+            if e is not None:
+                return e
         r = rng.random()
         if r < 0.16:
             return self.leaf(sync, slots, top)
@@ -145,10 +164,85 @@ class Gen:
         return [ALLOC, s, self.view(d + 1, sync, slots + [s], top, insus)]
 
 
-def gen_prog(rng, maxdepth, ngates, flat, bg=False):
+    def ext_view(self, d, slots, top, insus):
+        rng = self.rng
+        k = rng.random()
+        if k < 0.25:      # rows are built when the list is rendered, each under its own owner
+            was, self.routed = self.routed, True      # one router per page
+            row = self.view(max(d + 1, self.maxdepth - 1), False, slots, False, insus)
+            self.routed = was
+            if self.ext < 2 and (has_op(row, CLEANUP) or has_op(row, RESOURCE)):
+                return None
+            return [FOR, rng.randrange(2), rng.randrange(0, 4), row]
+        if k < 0.4:
+            return [TRANSITION, self.view(self.maxdepth - 1, True, slots), self.view(d + 1, False, slots, False, True)]
+        if k < 0.5:
+            self.cid += 1
+            return [OWNERAPI, 0, self.cid, 0, self.view(d + 1, False, slots, False, insus)]
+        if self.ext < 2:
+            return None
+        if k < 0.65 and not self.routed and not insus and not top:
+            self.routed = True
+            kind = rng.randrange(3)
+            p = self.probe()
+            self.probe()
+            child = self.view(d + 1, False, slots, False, insus)
+            inner = self.view(d + 1, False, slots, False, insus) if kind == 1 else [TEXT]
+            return [ROUTER, kind, p, child, inner]
+        if k < 0.9:
+            kind, mode = rng.randrange(7), rng.randrange(5)
+            flags = rng.choice([0, 0, 1, 2, 3])
+            p1, p2, p3 = self.probe(), self.probe(), self.probe()
+            if mode in (1, 4):
+                child = self.view(d + 1, self.flat, slots, top, insus)
+            else:
+                child = self.view(d + 1, self.flat, slots, not insus, insus)
+            return [RES2, kind, flags, mode, rng.randrange(self.ng), p1, p2, p3, child]
+        self.cid += 1
+        mode = rng.randrange(1, 3)
+        child = self.view(d + 1, False, slots, False, insus)
+        if mode == 1 and not cleanable(child):
+            mode = 2
+        return [OWNERAPI, mode, self.cid, rng.randrange(self.ng), child]
+
+
+def cleanable(p):
+    """an owner that the program itself cleans up by hand (OWNERAPI mode 1) must not own
+    resources that are awaited afterwards: reading a disposed resource panics by design"""
+    return not (has_op(p, RESOURCE) or has_op(p, RES2))
+
+
+def has_op(p, op):
+    return p[0] == op or any(has_op(c, op) for c in p[1:] if isinstance(c, list))
+
+
+def gen_prog(rng, maxdepth, ngates, flat, bg=False, ext=0):
     if bg:      # handles in scope everywhere, so that background reads are frequent
-        return [ALLOC, 51, [ALLOC, 151, Gen(rng, maxdepth, ngates, flat, bg).view(0, False, [51, 151])]]
-    return Gen(rng, maxdepth, ngates, flat, bg).view(0, False, [])
+        return [ALLOC, 51, [ALLOC, 151, Gen(rng, maxdepth, ngates, flat, bg, ext).view(0, False, [51, 151])]]
+    return Gen(rng, maxdepth, ngates, flat, bg, ext).view(0, False, [])
+
+
+def gen_sfn(rng, ngates):
+    """a server-function request: (22 g p1 p2 p3 slot cid)"""
+    return [SFN, rng.randrange(ngates), 1, 2, 3, rng.randrange(1, 90), rng.randrange(1, 50)]
+
+
+def modelled(p):
+    """constructs Ambient.compile / AmbientRun.dec_view transcribe (the others are judged by the
+    oracle only: 'compared, not proved')"""
+    op = p[0]
+    if op > UNSUSPEND or op in (ROUTER, RES2, SCLEAF, BGREAD):
+        return False
+    if op == CTXLEAF and not 1 <= p[2] <= 3:
+        return False
+    if op == OWNERAPI and p[1] != 0:
+        return False
+    if op == FOR and (has_op(p[3], CLEANUP) or has_op(p[3], RESOURCE)):
+        # rows may be built more than once (dry_resolve + resolve): cleanups are then registered
+        # more than once; the model names a resource's internal future after its probe, so two
+        # rows with the same resource would share it
+        return False
+    return all(modelled(c) for c in p[1:] if isinstance(c, list))
 
 
 def n_gates(p):
@@ -157,6 +251,12 @@ def n_gates(p):
         m = p[1] + 1
     if p and p[0] == RESOURCE:
         m = p[2] + 1
+    if p and p[0] == RES2:
+        m = p[4] + 1
+    if p and p[0] == OWNERAPI and p[1] == 1:
+        m = p[3] + 1
+    if p and p[0] == SFN:
+        m = p[1] + 1
     for c in p[1:]:
         if isinstance(c, list):
             m = max(m, n_gates(c))
@@ -164,7 +264,7 @@ def n_gates(p):
 
 
 def has_async(p):
-    return bool(p) and (p[0] in (SUSPEND, RESOURCE, BGREAD) or any(has_async(c) for c in p[1:] if isinstance(c, list)))
+    return bool(p) and (p[0] in (SUSPEND, RESOURCE, BGREAD, RES2, SFN) or any(has_async(c) for c in p[1:] if isinstance(c, list)))
 
 
 SMALL = [
@@ -244,58 +344,125 @@ def late_sched(rng, n, ngates, length):
     return s
 
 
+def comparable(progs):
+    return all(p[0] != SFN and modelled(p) and async_depth(p) <= 1 and not has_bg(p) for p in progs)
+
+
 def both(sb, ooo, pipeline, progs, sched, kind):
-    yield dict(case=[0, sb, ooo, pipeline, 0, progs, sched], kind=kind + "/trace", compare=True)
+    """obs=0: abstract trace (compared with the Coq model if every construct is modelled),
+    obs=1: responses + solo replays for the oracle"""
+    # the shipped axum handlers (pipeline 3) call build_response at their first poll, not when the
+    # handler future is created: the ambient owner between "create" and the first poll differs
+    # from the model's, which creates the root at once
+    cmp = comparable(progs) and not (pipeline == 3 and any(a[0] == 4 for a in sched))
+    yield dict(case=[0, sb, ooo, pipeline, 0, progs, sched], kind=kind + "/trace", compare=cmp)
     yield dict(case=[1, sb, ooo, pipeline, 0, progs, sched], kind=kind + "/solo", compare=False)
+
+
+# small programs over the constructs added by the coverage audit: 6, 7 modelled; 8..11 oracle-only
+SMALL_EXT = [
+    [PROVIDE, 2, [SEQ, [CTXLEAF, 1, 1], [FOR, 0, 2, [SEQ, [CTXLEAF, 2, 2], [SUSPEND, 0, 3, [CTXLEAF, 4, 3]]]], [UNSUSPEND, 5]]],
+    [TRANSITION, [LEAF, 1], [SEQ, [OWNERAPI, 0, 1, 0, [PROVIDE, 3, [SUSPEND, 0, 2, [DYNL, 3]]]], [FOR, 1, 3, [DYNL, 4]], [UNSUSPEND, 5]]],
+    [PROVIDE, 1, [ROUTER, 1, 1, [SEQ, [LEAF, 3], [DYNL, 4]], [SEQ, [SUSPEND, 0, 5, [CTXLEAF, 6, 5]],
+                                                                [RES2, 0, 0, 1, 0, 7, 8, 9, [TEXT]]]]],
+    [ALLOC, 1, [SEQ, [ROUTER, 0, 1, [RES2, 2, 1, 0, 0, 3, 4, 5, [ITEM, 6, 1]], [TEXT]], [SCLEAF, 7, 1], [SCLEAF, 8, 0],
+                [BGREAD, 0, 9, 1, 1]]],
+    [SEQ, [RES2, 4, 0, 4, 0, 1, 2, 3, [LEAF, 4]], [RES2, 3, 3, 3, 0, 5, 6, 7, [CTXLEAF, 8, 4]],
+     [OWNERAPI, 1, 1, 0, [ALLOC, 2, [SUSPEND, 0, 9, [ITEM, 10, 2]]]]],
+    [ROUTER, 2, 1, [SEQ, [RES2, 6, 1, 2, 0, 3, 4, 5, [DYN, 6]], [CTXLEAF, 7, 5], [SCLEAF, 8, 3]], [TEXT]],
+]
+SMALL_SFN = [SFN, 0, 1, 2, 3, 5, 7]
+
+
+def req_actions_early(r):
+    """the awaited future completes before the response future has been polled once"""
+    return [[4, r], [1, r, 0], [2, r], [2, r], [3, r]]
+
+
+def configs(sb, k):
+    """streaming mode (4 builders) and pipeline for the k-th case of an enumerated family"""
+    return k % 4, ([0, 1, 3][(k // 4) % 3] if sb else 0)
 
 
 def generate(rng, tier):
     quick = tier == "quick"
+    allsmall = SMALL + SMALL_EXT
     # 1. exhaustive: all interleavings of the two requests' action lists, small program pairs
-    pairs = [(0, 1), (2, 3), (4, 5)] if quick else [(i, j) for i in range(len(SMALL)) for j in range(i, len(SMALL))]
+    if quick:
+        pairs = [(0, 1, 1), (2, 3, 1), (4, 5, 1), (6, 7, 2), (8, 9, 2), (10, 11, 2), (1, 12, 2), (12, 9, 3)]
+    else:
+        pairs = [(i, j, 1) for i in range(len(allsmall)) for j in range(i, len(allsmall))] + \
+            [(i, 12, 1) for i in range(len(allsmall))] + [(12, i, 1) for i in range(len(allsmall))]
+    allsmall = allsmall + [SMALL_SFN]
     k = 0
-    for (i, j) in pairs:
+    for (i, j, stride) in pairs:
         scheds = list(interleavings(req_actions(1), req_actions(2))) + \
-            list(interleavings(req_actions(1, True), req_actions(2, True)))
-        for sched in scheds:
+            list(interleavings(req_actions(1, True), req_actions(2, True))) + \
+            list(interleavings(req_actions_early(1), req_actions_early(2)))[::1 if not quick else 3]
+        sfn = 12 in (i, j)
+        for sched in scheds[::stride]:
             k += 1
-            sb, ooo = (k >> 1) & 1, k & 1
             if not quick:
-                for sb, ooo in ((0, 0), (0, 1), (1, 0), (1, 1)):
-                    yield from both(sb, ooo, sb and (k & 4) >> 2, [SMALL[i], SMALL[j]], sched, "exhaustive-pair")
+                for sb in ((1,) if sfn else (0, 1)):
+                    for ooo in range(4):
+                        for pipeline in ((0, 1, 3) if sb else (0,)):
+                            yield from both(sb, ooo, pipeline, [allsmall[i], allsmall[j]], sched, "exhaustive-pair")
             else:
-                yield from both(sb, ooo, sb and (k & 4) >> 2, [SMALL[i], SMALL[j]], sched, "exhaustive-pair")
-    # 2. random coarse, compared with the model (awaits not nested)
+                sb = 1 if sfn else (k >> 1) & 1
+                ooo, pipeline = configs(sb, k)
+                yield from both(sb, ooo, pipeline, [allsmall[i], allsmall[j]], sched, "exhaustive-pair")
+    # 2. random coarse, compared with the model (awaits not nested; half of them with the modelled
+    #    constructs of the audit: context-API leaves, For, Transition, Unsuspend, Owner::new)
     for _ in range(1200 if quick else 20000):
         n = rng.choice([2, 2, 3])
         ng = rng.choice([1, 2, 3])
-        progs = [gen_prog(rng, rng.choice([2, 3, 4]), ng, True) for _ in range(n)]
+        ext = rng.randrange(2)
+        progs = [gen_prog(rng, rng.choice([2, 3, 4]), ng, True, False, ext) for _ in range(n)]
         sb = rng.randrange(2)
-        yield from both(sb, rng.randrange(2), rng.randrange(2) if sb else 0, progs,
+        yield from both(sb, rng.randrange(4), rng.choice([0, 1, 3]) if sb else 0, progs,
                         coarse_sched(rng, n, ng, rng.randrange(4, 18)), "random-coarse")
     # 3. random fine-grained schedules over deeper programs: oracle only
     for _ in range(1500 if quick else 25000):
         n = rng.choice([2, 2, 3])
         ng = rng.choice([1, 2, 3])
         bg = rng.random() < 0.4      # background tasks (reactive_graph::spawn) reading arena handles
-        progs = [gen_prog(rng, rng.choice([2, 3, 4]), ng, rng.random() < 0.3, bg) for _ in range(n)]
+        ext = rng.choice([0, 2, 2])
+        progs = [gen_prog(rng, rng.choice([2, 3, 4]), ng, rng.random() < 0.3, bg, ext) for _ in range(n)]
         sb = rng.randrange(2) if not bg else int(rng.random() < 0.8)
         sched = [rng.randrange(1000) for _ in range(rng.randrange(4, 60))]
-        yield dict(case=[1, sb, rng.randrange(2), rng.randrange(2) if sb else 0, 1, progs, sched],
+        yield dict(case=[1, sb, rng.randrange(4), rng.choice([0, 1, 3]) if sb else 0, 1, progs, sched],
                    kind="random-fine/solo", compare=False)
     # 3b. responses dropped from outside while other requests are current, tasks that outlive their
     #     request (reactive_graph::spawn), handles under nested owners read afterwards: oracle only
     for _ in range(900 if quick else 15000):
         n = rng.choice([2, 2, 3])
         ng = rng.choice([1, 2])
+        ext = rng.choice([0, 0, 2])
         if rng.random() < 0.6:      # same program everywhere: arena keys collide across sandboxed arenas
-            progs = [gen_prog(rng, rng.choice([2, 3, 4]), ng, rng.random() < 0.5, True)] * n
+            progs = [gen_prog(rng, rng.choice([2, 3, 4]), ng, rng.random() < 0.5, True, ext)] * n
         else:
-            progs = [gen_prog(rng, rng.choice([2, 3, 4]), ng, rng.random() < 0.5, rng.random() < 0.7) for _ in range(n)]
+            progs = [gen_prog(rng, rng.choice([2, 3, 4]), ng, rng.random() < 0.5, rng.random() < 0.7, ext) for _ in range(n)]
         sb = int(rng.random() < 0.8)
-        yield dict(case=[1, sb, rng.randrange(2), rng.randrange(2) if sb else 0, 0, progs,
+        yield dict(case=[1, sb, rng.randrange(4), rng.choice([0, 1, 3]) if sb else 0, 0, progs,
                          late_sched(rng, n, ng, rng.randrange(5, 20))],
                    kind="abort-late/solo", compare=False)
+    # 3c. requests of another kind in between: server-function calls handled by the shipped
+    #     leptos_axum::handle_server_fns_with_context next to page renders (sandboxed build): oracle only
+    for _ in range(500 if quick else 8000):
+        n = rng.choice([2, 2, 3])
+        ng = rng.choice([1, 2])
+        progs = [gen_prog(rng, rng.choice([2, 3]), ng, rng.random() < 0.5, False, rng.choice([0, 2])) for _ in range(n)]
+        for i in rng.sample(range(n), rng.choice([1, 1, 2])):
+            progs[i] = gen_sfn(rng, ng)
+        fine = int(rng.random() < 0.4)
+        if fine:
+            sched = [rng.randrange(1000) for _ in range(rng.randrange(4, 40))]
+        elif rng.random() < 0.5:
+            sched = late_sched(rng, n, ng, rng.randrange(5, 20))
+        else:
+            sched = coarse_sched(rng, n, ng, rng.randrange(4, 18))
+        yield dict(case=[1, 1, rng.randrange(4), rng.choice([0, 1, 3]), fine, progs, sched],
+                   kind="server-fn/solo", compare=False)
     # 4. negative control: an integration that streams the body outside the owner (build_response
     #    before the F-C20-a repair). Not judged; coverage_extra counts how often the leak shows.
     for _ in range(60 if quick else 600):
@@ -334,8 +501,30 @@ def wf_prog(p, slots=()):
     if op == ITEM:
         return len(a) == 2 and ints(a) and a[1] in slots
     if op == BGREAD:
-        return len(a) == 3 and ints(a) and a[0] < 8 and a[2] in slots
+        return len(a) in (3, 4) and ints(a) and a[0] < 8 and a[2] in slots and (len(a) == 3 or a[3] < 3)
+    if op == CTXLEAF:
+        return len(a) == 2 and ints(a) and a[1] < 6
+    if op == ROUTER:
+        return len(a) == 4 and ints(a[:2]) and a[0] < 3 and wf_prog(a[2], slots) and wf_prog(a[3], slots)
+    if op == RES2:
+        return (len(a) == 8 and ints(a[:7]) and a[0] < 7 and a[1] < 4 and a[2] < 5 and a[3] < 8
+                and wf_prog(a[7], slots))
+    if op == OWNERAPI:
+        return len(a) == 4 and ints(a[:3]) and a[0] < 3 and a[2] < 8 and wf_prog(a[3], slots)
+    if op == SCLEAF:
+        return len(a) == 2 and ints(a) and a[1] < 5
+    if op == FOR:
+        return len(a) == 3 and ints(a[:2]) and a[0] < 2 and a[1] < 5 and wf_prog(a[2], slots)
+    if op == TRANSITION:
+        return len(a) == 2 and wf_prog(a[0], slots) and wf_prog(a[1], slots)
+    if op == UNSUSPEND:
+        return len(a) == 1 and ints(a)
     return False
+
+
+def wf_sfn(p):
+    return (isinstance(p, list) and len(p) == 7 and all(isinstance(x, int) and x >= 0 for x in p) and p[0] == SFN
+            and p[1] < 8 and p[5] < 100 and len(set(p[2:5])) == 3)
 
 
 def has_bg(p):
@@ -344,13 +533,19 @@ def has_bg(p):
 
 def async_depth(p):
     d = max([async_depth(c) for c in p[1:] if isinstance(c, list)] or [0])
-    return d + 1 if p[0] in (SUSPEND, RESOURCE) else d
+    return d + 1 if p[0] in (SUSPEND, RESOURCE, RES2) else d
 
 
 def probes(p):
     out = []
-    if p[0] in (LEAF, DYN, ITEM, DYNL):
+    if p[0] in (LEAF, DYN, ITEM, DYNL, CTXLEAF, SCLEAF, UNSUSPEND):
         out.append(p[1])
+    if p[0] == ROUTER:
+        out += [p[2], p[2] + 1]
+    if p[0] == RES2:
+        out += p[5:8]
+    if p[0] == SFN:
+        return p[2:5]
     if p[0] in (SUSPEND, BGREAD):
         out.append(p[2])
     if p[0] == RESOURCE:
@@ -363,13 +558,13 @@ def probes(p):
 
 def sync_only(p, inside=False):
     """no reactive closure / await inside a Suspense fallback"""
-    if p[0] == SUSPENSE:
+    if p[0] in (SUSPENSE, TRANSITION):
         return no_async_dyn(p[1]) and sync_only(p[2])
     return all(sync_only(c) for c in p[1:] if isinstance(c, list))
 
 
 def no_async_dyn(p):
-    if p[0] in (DYN, DYNL, SUSPEND, RESOURCE, SUSPENSE, BGREAD):
+    if p[0] in (DYN, DYNL, SUSPEND, RESOURCE, SUSPENSE, BGREAD, ROUTER, RES2, OWNERAPI, FOR, TRANSITION, UNSUSPEND):
         return False
     return all(no_async_dyn(c) for c in p[1:] if isinstance(c, list))
 
@@ -377,17 +572,42 @@ def no_async_dyn(p):
 def dynl_ok(p, top=False, insus=False):
     """DYNL only where the owner it is rendered under is the lexical one whatever the timing"""
     op = p[0]
-    if op == DYNL:
+    if op in (DYNL, UNSUSPEND):
         return not top
     if op == PROVIDE:
         return dynl_ok(p[2], False, insus)
-    if op == SUSPENSE:
+    if op in (SUSPENSE, TRANSITION):
         return dynl_ok(p[1], False, True) and dynl_ok(p[2], False, True)
+    if op == ROUTER:
+        # route views are built and rendered under owners the router captured; the router itself
+        # must be rendered below the owner it was created under (<Outlet/> looks its RouteContext
+        # up from the rendering owner), i.e. not directly in the view a top-level Suspend resolves to
+        return not top and dynl_ok(p[3], False, insus) and dynl_ok(p[4], False, insus)
+    if op == FOR:
+        return dynl_ok(p[3], False, insus)
+    if op == OWNERAPI:
+        return dynl_ok(p[4], False, insus)
+    if op == RES2:
+        return dynl_ok(p[8], top, insus) if p[3] in (1, 4) else dynl_ok(p[8], not insus, insus)
     if op == SUSPEND:
         return dynl_ok(p[3], not insus, insus)
     if op == RESOURCE:
         return dynl_ok(p[6], not insus, insus)
     return all(dynl_ok(c, top, insus) for c in p[1:] if isinstance(c, list))
+
+
+def owners_ok(p):
+    if p[0] == OWNERAPI and p[1] == 1 and not cleanable(p[4]):
+        return False
+    return all(owners_ok(c) for c in p[1:] if isinstance(c, list))
+
+
+def routers(p):
+    if p[0] == ROUTER:
+        yield p
+    for c in p[1:]:
+        if isinstance(c, list):
+            yield from routers(c)
 
 
 def valid_case(item):
@@ -397,13 +617,21 @@ def valid_case(item):
     obs, sb, ooo, pipeline, fine, progs, sched = c
     if not (isinstance(progs, list) and 2 <= len(progs) <= 3 and isinstance(sched, list)):
         return False
+    if not (0 <= ooo <= 3 and 0 <= pipeline <= 3 and (sb or pipeline in (0, 2))):
+        return False
     for p in progs:
+        if isinstance(p, list) and p and p[0] == SFN:      # a server-function request (leptos_axum: sandboxed build)
+            if not (wf_sfn(p) and sb and not item.get("compare", True)):
+                return False
+            continue
         if not wf_prog(p) or not sync_only(p) or not dynl_ok(p):
             return False
         ps = probes(p)
         if len(ps) != len(set(ps)) or any(q < 1 or q > 900 for q in ps):
             return False
-        if item.get("compare", True) and (async_depth(p) > 1 or has_bg(p)):
+        if sum(1 for _ in routers(p)) > 1 or not owners_ok(p):
+            return False
+        if item.get("compare", True) and (async_depth(p) > 1 or has_bg(p) or not modelled(p)):
             return False
     if fine:
         return all(isinstance(x, int) and x >= 0 for x in sched)
@@ -506,7 +734,8 @@ def nontrivial(item, model):
 
 def describe(it):
     c = it["case"]
-    names = ["text", "leaf", "dyn", "el", "seq", "provide", "suspend", "suspense", "resource", "cleanup", "alloc", "item", "dynl", "bgread"]
+    names = ["text", "leaf", "dyn", "el", "seq", "provide", "suspend", "suspense", "resource", "cleanup", "alloc", "item", "dynl", "bgread",
+             "ctxleaf", "router", "resource2", "ownerapi", "sharedctx", "for", "transition", "unsuspend", "serverfn"]
 
     def pv(p):
         if not isinstance(p, list) or not p:
@@ -520,8 +749,9 @@ def describe(it):
     else:
         sched = " ".join("%s%s" % (acts.get(a[0], "?"), tuple(a[1:])) for a in c[6] if isinstance(a, list) and a)
     return "%s | arenas=%s stream=%s pipeline=%s | %s | %s" % (
-        "trace" if c[0] == 0 else "responses+solo", "sandboxed" if c[1] else "global", "ooo" if c[2] else "in-order",
-        {0: "transcribed build_response", 1: "real from_app", 2: "unscoped body (control)"}.get(c[3], c[3]),
+        "trace" if c[0] == 0 else "responses+solo", "sandboxed" if c[1] else "global",
+        {0: "in-order", 1: "ooo", 2: "async (builder collects)", 3: "in-order (eager)"}.get(c[2], c[2]),
+        {0: "transcribed build_response", 1: "real from_app", 2: "unscoped body (control)", 3: "real leptos_axum handlers"}.get(c[3], c[3]),
         " || ".join(pv(p) for p in c[5]), sched)
 
 
@@ -537,7 +767,7 @@ def coverage_extra(results):
     cfgs = {}
     for r in results:
         c = r["item"]["case"]
-        key = "arenas=%s,%s,pipeline=%d,%s" % ("sandboxed" if c[1] else "global", "ooo" if c[2] else "in-order", c[3],
+        key = "arenas=%s,%s,pipeline=%d,%s" % ("sandboxed" if c[1] else "global", ["in-order", "ooo", "async", "in-order-eager"][c[2] & 3], c[3],
                                                "fine" if c[4] else "coarse")
         cfgs[key] = cfgs.get(key, 0) + 1
     return dict(configurations=cfgs, control_unscoped_body=dict(cases=len(ctl), leak_observed=leaked))
